@@ -6,9 +6,9 @@ from .. import tlc
 from ..adapters import backend as ad
 
 MODULE = "Backend"
-ACTIONS = ["RecordBegin", "OpenFile", "WriteHeader", "PlanBlock", "Request", "Store", "WriteBlock", "CloseFile", "RecordEnd"]
+ACTIONS = ["RecordBegin", "OpenFile", "WriteHeader", "PlanBlock", "Request", "Abort", "Store", "WriteBlock", "CloseFile", "RecordEnd"]
 
-QUICK_SETS = {"USet": "{1, 2, 3, 4}", "SSet": "{1, 2, 3, 5}", "BlocksSet": "{1, 3}", "BpfSet": "{1, 2}"}
+QUICK_SETS = {"USet": "{1, 2, 3, 4}", "SSet": "{1, 2, 3, 5}", "BlocksSet": "{1, 2}", "BpfSet": "{1, 2}"}
 THOROUGH_SETS = {"USet": "{1, 2, 3, 4, 5, 6, 7}", "SSet": "{1, 2, 3, 4, 5, 6, 7, 9}", "BlocksSet": "{1, 2, 3}", "BpfSet": "{1, 2, 3}"}
 
 
@@ -38,7 +38,8 @@ def run_for(ctx, pid, num_quick=160, num_thorough=4000, check_bytes=True):
                          "blocks per file, pols, bits, header-dict mode) drawn by TLC from Backend.tla with the expected "
                          "request sequence / files / PKTIDX / accounting; each is instantiated (branches, channels, "
                          "start channel, orientation, digitiser on/off, sample rate, antenna or 2-antenna array, template) "
-                         "and recorded twice in one process; distinct = distinct (configuration, instantiation)")
+                         "and recorded twice in one process, in most behaviours after an attempt in which the voltage source "
+                         "raises on its 2nd or 3rd request; distinct = distinct (configuration, instantiation)")
     ctx.assume("quantiser statistics from a common prefix: stats_calc_period=-1, digitiser 2*taps*B samples, requantiser "
                "taps rows; a byte may differ by 1 LSB only where the reference's pre-rounding value is within 1e-7 of a tie")
     ctx.assume("reference pipeline: harness-owned quantiser + FIR/explicit-DFT + GUPPI encoder; twin antenna with the "
@@ -49,10 +50,13 @@ def run_for(ctx, pid, num_quick=160, num_thorough=4000, check_bytes=True):
     os.makedirs(work, exist_ok=True)
     seen = set()
     for n, beh in enumerate(behs):
-        key = tuple(sorted(beh["cfg"].items()))
+        ab = beh["recs"][-1].get("abort") or {"n": 0}
+        key = tuple(sorted(beh["cfg"].items())) + ((("abort", ab["before"], ab["at"]),) if ab["n"] else ())
         if key in seen:
             continue
         seen.add(key)
+        if ab["n"]:
+            ctx.notes["behaviours_with_a_failing_source"] = ctx.notes.get("behaviours_with_a_failing_source", 0) + 1
         divs, inst = ad.run_config(beh, ctx.seed, work, check_bytes=check_bytes)
         ctx.traces += len(beh["recs"])
         ctx.steps += sum(len(r["reqs"]) for r in beh["recs"])
